@@ -253,8 +253,8 @@ _ADDED = {
            "rise to exactly the plateau in ceil(A/dgdt/dt) steps (Z5), both by the lemma Y/ceil(Y/L) <= L; the designers carry no memoising decorator (Z6).",
 }
 _NOTE_REPLACED = {
-    "C20": "NOT decided: the amplitude and slew bounds of trap_grad (its final rescaling by area/(sum(pulse) dt) is an inequality over ceil-rounded runtime quantities with no sound "
-           "static bound in reach) and the k-space increments of spokes_grad. Trusted: numpy linspace/concatenate semantics; the arithmetic lemma ceil(X) >= X; divisions are by non-zero "
+    "C20": "NOT decided: the amplitude and slew bounds of trap_grad in its TRIANGLE regime (area/((R'+1) dt) <= gmax needs the regime condition ramppts*dt*gmax > area together "
+           "with two different ceil-rounded ramp counts; no proof by the two rounding lemmas was found) and the k-space increments of spokes_grad. Trusted: numpy linspace/concatenate semantics; the arithmetic lemma ceil(X) >= X; divisions are by non-zero "
            "finite scalars. Paths on which trap_grad reads its ramp-sampling flag before binding it, or branches against the constant just assigned to it, cannot return and are skipped.",
 }
 _ADDED2 = {
@@ -274,6 +274,29 @@ _ADDED2 = {
     "C18": " No function of mri/samp.py is memoised or keeps results in module-level state (B5).",
     "C19": " No simulator / SLR function is memoised or keeps work buffers in module-level state (Q6).",
 }
+_ADDED3 = {
+    "C03": " The allocate-or-widen helper of the stacked output keeps the buffer only when result_type(buffer, block) is the buffer's own dtype (G2h).",
+    "C06": " The interpolation / gridding loops nufft relies on (anchor sigpy/interp.py) are checked with C07's kernel rules I1-I7 as part of this property.",
+    "C07": " linop.Interpolate / linop.Gridding apply the two functions with the constructor's coord, kernel, width, param and hand the same four values to the partner "
+           "they name as adjoint (I8).",
+    "C09": " The operator classes Resize, Flip, Circshift, Downsample, Upsample, ArrayToBlocks, BlocksToArray add nothing of their own: _apply is the function applied "
+           "to the input with exactly the constructor's arguments (X8); circshift keeps shift k with the k-th listed axis also when the axes are listed out of order (X3).",
+    "C10": " Wavelet and InverseWavelet name each other as adjoint for the same shape, wave_name, axes and level (W3).",
+    "C14": " MaxEig, which supplies every default step size, starts its power iteration from a random vector over A.ishape (L6); because sigpy/alg.py is an anchor, the "
+           "update rules of the solvers LinearLeastSquares routes to (C12: preconditioned CG step; C13: proximal-gradient and primal-dual updates) are evaluated as part of this check.",
+    "C15": " An attribute a solver's constructor binds to a caller-supplied array and its methods update in place is never rebound outside the constructor (T7: the caller "
+           "keeps holding the solution the algorithm holds); the CG update and its breakdown test (C12's rules) are evaluated as part of this check; a stopping test that "
+           "calls super()._done() is read as the disjuncts the parent returns.",
+    "C17": " PowerMethod._update (sigpy/alg.py), whose iterate the maps are, is y = A(x); x <- y / norm_func(y) for the same y (H5).",
+    "C18": " poisson draws nothing from numpy's global stream outside its get_state()/set_state() bracket (B3).",
+    "C19": " abrm_hp's phase after the time loop is minus one half of the sum over the loop of the per-sample precession phase (Q7), so the reported pair carries no "
+           "length-dependent spurious phase.",
+    "C20": " In the trapezoid regime of trap_grad the plateau amplitude area/(sum(pulse) dt) is <= gmax (Z7: gmax dt sum(pulse) - area >= gmax dt > 0, from the flat-top "
+           "count being the required length rounded up) and the ramps change by at most dgdt dt per sample (Z8: R = ceil(gmax/(dgdt dt)) ramp samples, plateau joined at "
+           "the same value); both by the lemmas ceil(x) >= x and int(n) = n for integer-valued n.",
+}
+for _k, _v in _ADDED3.items():
+    _ADDED2[_k] = _ADDED2.get(_k, "") + _v
 for _k, _v in _ADDED2.items():
     _ADDED[_k] = _ADDED.get(_k, "") + _v
 for _k, _v in _ADDED.items():
